@@ -4,7 +4,7 @@ copies /tmp/seed/<ID>/out/<x>/ to /verif/seeded/<ID><x>/ and writes meta.json"""
 import sys, os, shutil, json
 pid, x, pkg, caught, needs, notes = sys.argv[1:7]
 base = os.environ.get("SEED_BASE", "/tmp/seed")
-name = {"a": "c", "b": "d"}[x] if base.endswith("seed2") else {"a": "e", "b": "f"}[x] if base.endswith("seed3") else {"a": "g", "b": "h"}[x] if base.endswith("seed4") else {"a": "i", "b": "j"}[x] if base.endswith("seed5") else {"a": "k", "b": "l"}[x] if base.endswith("seed6") else {"a": "m", "b": "n"}[x] if base.endswith("seed7") else x
+name = {"a": "c", "b": "d"}[x] if base.endswith("seed2") else {"a": "e", "b": "f"}[x] if base.endswith("seed3") else {"a": "g", "b": "h"}[x] if base.endswith("seed4") else {"a": "i", "b": "j"}[x] if base.endswith("seed5") else {"a": "k", "b": "l"}[x] if base.endswith("seed6") else {"a": "m", "b": "n"}[x] if base.endswith("seed7") else {"a": "o", "b": "p"}[x] if base.endswith("seed8") else x
 src = "%s/%s/out/%s" % (base, pid, x)
 dst = "/verif/seeded/%s%s" % (pid, name)
 x = name
